@@ -90,7 +90,7 @@ func runWithConsumer(f func(ch *chan events.Event) (string, error), capacity, st
 	select {
 	case evs = <-drained:
 		obs.Closes = 1
-	case <-time.After(300 * time.Millisecond):
+	case <-time.After(time.Duration(300+2*stallMs) * time.Millisecond): // a stalled consumer may still be asleep with events in the buffer
 		obs.Closes = 0
 		close(ch)
 		evs = <-drained
